@@ -19,6 +19,7 @@ type SGenCfg struct {
 	RestFail   bool // per-node REST failures for management ops
 	PingsPct   int  // percent of programs that run with monitor pings on
 	NoSpare    bool // exactly RF nodes (every node is one of the configured replicas)
+	FillPct    int  // percent of programs that begin by writing the whole volume
 }
 
 func genOutcomes(t *rapid.T, nodes int, cfg SGenCfg, slowLeft *int) []Outcome {
@@ -82,6 +83,9 @@ func GenSProgram(t *rapid.T, cfg SGenCfg) SProgram {
 	nops := rapid.IntRange(cfg.MinOps, cfg.MaxOps).Draw(t, "nops")
 	slowLeft := cfg.MaxSlow
 	total := int64(blocks) * 8
+	if cfg.FillPct > 0 && rapid.IntRange(0, 99).Draw(t, "fill") < cfg.FillPct {
+		p.Ops = append(p.Ops, SOp{K: "write", Off: 0, Len: total, Seed: rapid.IntRange(1, 250).Draw(t, "fillseed")})
+	}
 	for len(p.Ops) < nops {
 		k := weighted(t, cfg.W, "op")
 		if k == "pingfail" && !p.Pings {
